@@ -59,13 +59,19 @@ class Exec:
                 return V("N", f"({c} : Nat)")
             if float(c) in LITS_R:
                 return V("R", LITS_R[float(c)])
+            if c < 0 and float(-c) in LITS_R:
+                return V("R", f"(-{LITS_R[float(-c)]})")
+            if self.cfg.get("natcast") and c >= 0:
+                return V("R", f"(({c} : Nat) : α)")       # Python int -> float conversion in mixed arithmetic
             raise Untranslatable(f"integer literal {c} has no counterpart in the model's numeric class")
-        if isinstance(c, float) and "lits" in self.cfg:
+        if isinstance(c, float) and "lits" in self.cfg and not (self.cfg.get("lits_unknown_only") and c in LITS_R):
             self.cfg["lits"].append(c)
             return V("R", f"(lit {len(self.cfg['lits']) - 1})")
         if isinstance(c, float):
             if c in LITS_R:
                 return V("R", LITS_R[c])
+            if self.cfg.get("natcast") and c.is_integer() and 0 <= c < 2 ** 53:
+                return V("R", f"(({int(c)} : Nat) : α)")      # `10.0` and `10` denote the same double
             if -c in LITS_R:
                 return V("R", f"(-{LITS_R[-c]})")
             raise Untranslatable(f"float literal {c!r} has no counterpart in the model's numeric class")
@@ -77,6 +83,8 @@ class Exec:
             return env[src]
         if src in self.scalars:
             return self.scalars[src]
+        if src in self.cfg.get("opaque", ()):
+            return V("X", "_")
         if isinstance(e, ast.Constant):
             return self.lit(e.value, want)
         if isinstance(e, ast.Name):
@@ -97,7 +105,22 @@ class Exec:
             op = {ast.Add: "+", ast.Sub: "-", ast.Mult: "*", ast.Div: "/"}.get(type(e.op))
             if op is None:
                 raise Untranslatable(f"operator in {src}")
-            a, b = self.ev(e.left, env), self.ev(e.right, env)
+            a = b = None
+            if self.cfg.get("natcast") and op == "*":
+                # `2 * i` with the loop index: integer arithmetic, converted to float as a whole when it meets a float
+                l_int = isinstance(e.left, ast.Constant) and isinstance(e.left.value, int) and not isinstance(e.left.value, bool)
+                if l_int and e.left.value >= 0:
+                    b = self.ev(e.right, env)
+                    if b.ty == "N":
+                        return V("N", f"({e.left.value} * {b.s})")
+            a = self.ev(e.left, env)
+            if b is None:
+                b = self.ev(e.right, env)
+            if self.cfg.get("natcast"):
+                if a.ty == "N" and b.ty == "R":
+                    a = V("R", f"(({a.s} : Nat) : α)")
+                elif a.ty == "R" and b.ty == "N":
+                    b = V("R", f"(({b.s} : Nat) : α)")
             if a.ty == "N" and b.ty == "N" and op == "+":
                 return V("N", f"({a.s} + {b.s})")
             if a.ty == "N" and isinstance(e.right, ast.Constant) and op == "+":
@@ -152,6 +175,8 @@ class Exec:
             fsrc = ast.unparse(f)
             if fsrc in ("np.double", "float") and len(e.args) == 1:
                 return self.num(self.ev(e.args[0], env))
+            if fsrc == "math.pi" and self.cfg.get("mathfns"):
+                return V("R", "MathFns.pi")
             if fsrc in ("math.exp", "math.sin", "math.cos", "math.sqrt", "np.sqrt") and len(e.args) == 1 and self.cfg.get("mathfns"):
                 return V("R", f"(MathFns.{fsrc.split('.')[1]} {self.num(self.ev(e.args[0], env)).s})")
             if isinstance(f, ast.Attribute):
@@ -162,6 +187,8 @@ class Exec:
                     if f.attr in GETTERS and not e.args:
                         ty, fld = GETTERS[f.attr]
                         return V(ty, f"{o.s}.{fld}")
+        if isinstance(e, ast.Attribute) and src == "math.pi" and self.cfg.get("mathfns"):
+            return V("R", "MathFns.pi")
         if isinstance(e, ast.Attribute):
             o = self.ev(e.value, env)
             if o.ty == "O" and e.attr in ATTRS:
@@ -533,6 +560,312 @@ def generate_evolvent(cls):
     return EV_HEAD + "\n".join(out) + "end\nend Gen.EvSrc\n", errors
 
 
+# ================================================================================================================
+# benchmark problems: the loop bodies and closing formulas of the `Calculate` methods
+# ================================================================================================================
+PROB_HEAD = ("-- GENERATED by harness/src2lean.py from the SOURCE TEXT of iOpt/problems/*.py under /repo; do not edit.\n"
+             "import IOptModel.Arith\n"
+             "/-!\nSymbolic translation of the `Calculate` methods of the benchmark families: for every accumulation loop the initial value\n"
+             "and the loop body (new accumulator as a function of the old one and of the array entries the iteration reads), the loop\n"
+             "headers as found in the source, and the closing formulas.  Tie theorems: `IOptProofs/SrcTieProb.lean`.\n-/\n"
+             "namespace Gen.PSrc\n"
+             "/-- marker type of a function the translator could not follow -/\nstructure Untranslatable where\n\n"
+             "section\nvariable {α : Type} [Add α] [Sub α] [Mul α] [Div α] [Neg α] [LT α] [LE α]\n"
+             "  [DecidableLT α] [DecidableLE α] [OfNat α 0] [OfNat α 1] [OfNat α 2] [OfNat α 4] [NatCast α] [MathFns α]\n\n")
+
+
+def _nodoc(stmts):
+    return [s_ for s_ in stmts if not (isinstance(s_, ast.Expr) and isinstance(s_.value, ast.Constant))]
+
+
+def _split_loop(stmts, what):
+    """(statements before, the single `for` node, statements after)"""
+    stmts = _nodoc(stmts)
+    idx = [k for k, s_ in enumerate(stmts) if isinstance(s_, ast.For)]
+    if len(idx) != 1:
+        raise Untranslatable(f"{what}: expected exactly one for-loop at this level, found {len(idx)}")
+    lp = stmts[idx[0]]
+    if not isinstance(lp.target, ast.Name) or lp.orelse:
+        raise Untranslatable(f"{what}: loop target / else clause")
+    return stmts[:idx[0]], lp, stmts[idx[0] + 1:]
+
+
+def _env_of(t, what):
+    if t[0] != "done":
+        raise Untranslatable(f"{what}: branching or raising where straight-line code was expected")
+    return t[1]
+
+
+def _header(lp, expected, what):
+    got = ast.unparse(lp.iter)
+    if got != expected:
+        raise Untranslatable(f"{what}: loop header `{got}` (the model iterates `{expected}`)")
+    return lp.target.id
+
+
+def _closing(ex, post, acc, what):
+    """the statements after the loop must be `functionValue.value = <acc>; return functionValue`"""
+    env = _env_of(ex.run(post, {acc: V("R", "ACC"), "functionValue": V("X", "fv")}), what)
+    if getattr(env.get("functionValue.value"), "s", None) != "ACC" or getattr(env.get("return"), "s", None) != "fv":
+        raise Untranslatable(f"{what}: the value stored / returned after the loop is not the accumulator in the supplied holder")
+
+
+def generate_problems(mods):
+    """mods: dict name -> class (Rastrigin, XSquared, Hill, Shekel, Shekel4, GrishaginFunction, GKLSFunction)"""
+    R = lambda s_: V("R", s_)
+    out, errors = [], []
+
+    def emit_all(names_sigs, thunk):
+        """thunk returns {name: body}; on failure every name becomes an Untranslatable marker"""
+        try:
+            bodies = thunk()
+            for name, sig, doc in names_sigs:
+                out.append(f"/-- {doc} -/\ndef {name} {sig} :=\n  {bodies[name]}\n")
+        except Untranslatable as e:
+            errors.append(f"{names_sigs[0][0]}: {e}")
+            for name, sig, doc in names_sigs:
+                out.append(f"/-- UNTRANSLATABLE: {str(e).replace('-/', '- /')} -/\ndef {name} : Untranslatable := ⟨⟩\n")
+
+    # ---- one accumulator, one loop: Rastrigin, XSquared, Hill, Shekel ----
+    def simple(cls, header, scal_of_i, acc_expected, prefix):
+        def f():
+            fa = func_ast(cls.Calculate)
+            pre, lp, post = _split_loop(fa.body, prefix)
+            i = _header(lp, header, prefix)
+            ex = Exec({"natcast": True, "mathfns": True, "scalars": scal_of_i(i)})
+            env0 = _env_of(ex.run(pre, {}), prefix)
+            accs = [k for k, v in env0.items() if v.ty == "R"]
+            if accs != [acc_expected]:
+                raise Untranslatable(f"{prefix}: accumulators before the loop {accs}")
+            acc = accs[0]
+            env1 = _env_of(ex.run(lp.body, {acc: R("acc"), i: V("N", "i")}), prefix)
+            extra = [k for k in env1 if k not in (acc, i)]
+            if extra:
+                raise Untranslatable(f"{prefix}: the loop body assigns {extra}")
+            _closing(ex, post, acc, prefix)
+            return {prefix + "Init": env0[acc].s, prefix + "Step": env1[acc].s}
+        return f
+    emit_all([("rastriginInit", ": α", "`Rastrigin.Calculate`: the accumulator before the loop `for i in range(self.dimension)`"),
+              ("rastriginStep", "(acc xi : α) : α", "`Rastrigin.Calculate`: the loop body, `xi = point.floatVariables[i]`")],
+             simple(mods["Rastrigin"], "range(self.dimension)", lambda i: {f"point.floatVariables[{i}]": R("xi")}, "sum", "rastrigin"))
+    emit_all([("xsquaredInit", ": α", "`XSquared.Calculate`: the accumulator before the loop `for i in range(self.dimension)`"),
+              ("xsquaredStep", "(acc xi : α) : α", "`XSquared.Calculate`: the loop body")],
+             simple(mods["XSquared"], "range(self.dimension)", lambda i: {f"point.floatVariables[{i}]": R("xi")}, "sum", "xsquared"))
+    emit_all([("hillInit", ": α", "`Hill.Calculate`: the accumulator before the loop `for i in range(hillGen.NUM_HILL_COEFF)`"),
+              ("hillStep", "(acc ai bi x : α) (i : Nat) : α",
+               "`Hill.Calculate`: the loop body, `ai = hillGen.aHill[self.fn][i]`, `bi = hillGen.bHill[self.fn][i]`, `x = point.floatVariables[0]`")],
+             simple(mods["Hill"], "range(hillGen.NUM_HILL_COEFF)",
+                    lambda i: {f"hillGen.aHill[self.fn][{i}]": R("ai"), f"hillGen.bHill[self.fn][{i}]": R("bi"),
+                               "point.floatVariables[0]": R("x")}, "res", "hill"))
+    emit_all([("shekelInit", ": α", "`Shekel.Calculate`: the accumulator before the loop `for i in range(shekelGen.NUM_SHEKEL_COEFF)`"),
+              ("shekelStep", "(acc ki ai ci x : α) : α",
+               "`Shekel.Calculate`: the loop body, `ki/ai/ci = shekelGen.kShekel/aShekel/cShekel[self.fn][i]`, `x = point.floatVariables[0]`")],
+             simple(mods["Shekel"], "range(shekelGen.NUM_SHEKEL_COEFF)",
+                    lambda i: {f"shekelGen.kShekel[self.fn][{i}]": R("ki"), f"shekelGen.aShekel[self.fn][{i}]": R("ai"),
+                               f"shekelGen.cShekel[self.fn][{i}]": R("ci"), "point.floatVariables[0]": R("x")}, "res", "shekel"))
+
+    # ---- Shekel4: a loop over the rows with an inner loop over the coordinates ----
+    def shekel4():
+        fa = func_ast(mods["Shekel4"].Calculate)
+        pre, lp, post = _split_loop(fa.body, "shekel4")
+        i = _header(lp, "range(shekelGen.maxI[self.fn - 1])", "shekel4")
+        ipre, ilp, ipost = _split_loop(lp.body, "shekel4 inner")
+        j = _header(ilp, "range(self.dimension)", "shekel4 inner")
+        ex = Exec({"natcast": True, "mathfns": True,
+                   "scalars": {f"point.floatVariables[{j}]": R("xj"), f"shekelGen.a[{i}][{j}]": R("aij"), f"shekelGen.c[{i}]": R("ci")}})
+        env0 = _env_of(ex.run(pre, {}), "shekel4")
+        if [k for k, v in env0.items() if v.ty == "R"] != ["res"]:
+            raise Untranslatable("shekel4: accumulators before the outer loop")
+        e1 = _env_of(ex.run(ipre, {"res": R("acc")}), "shekel4")
+        if [k for k in e1 if k != "res"] != ["den"]:
+            raise Untranslatable("shekel4: statements before the inner loop")
+        e2 = _env_of(ex.run(ilp.body, {"den": R("den")}), "shekel4 inner")
+        if list(e2) != ["den"]:
+            raise Untranslatable("shekel4: the inner loop assigns " + str(list(e2)))
+        e3 = _env_of(ex.run(ipost, {"res": R("acc"), "den": R("den")}), "shekel4")
+        if [k for k in e3 if e3[k].s != {"res": "acc", "den": "den"}.get(k)] != ["res"]:
+            raise Untranslatable("shekel4: statements after the inner loop")
+        _closing(ex, post, "res", "shekel4")
+        return {"shekel4Init": env0["res"].s, "shekel4DenInit": e1["den"].s, "shekel4DenStep": e2["den"].s, "shekel4Step": e3["res"].s}
+    emit_all([("shekel4Init", ": α", "`Shekel4.Calculate`: `res` before the loop `for i in range(shekelGen.maxI[self.fn - 1])`"),
+              ("shekel4DenInit", ": α", "`Shekel4.Calculate`: `den` before the inner loop `for j in range(self.dimension)`"),
+              ("shekel4DenStep", "(den xj aij : α) : α", "`Shekel4.Calculate`: the inner loop body, `xj = point.floatVariables[j]`, `aij = shekelGen.a[i][j]`"),
+              ("shekel4Step", "(acc den ci : α) : α", "`Shekel4.Calculate`: the statement after the inner loop, `ci = shekelGen.c[i]`")], shekel4)
+
+    # ---- Grishagin ----
+    def grish():
+        fa = func_ast(mods["GrishaginFunction"].Calculate)
+        stmts = _nodoc(fa.body)
+        loops = [k for k, s_ in enumerate(stmts) if isinstance(s_, ast.For)]
+        if len(loops) != 2:
+            raise Untranslatable("grishagin: expected the recurrence loop and the double accumulation loop")
+        pre, rec, mid, accl, post = stmts[:loops[0]], stmts[loops[0]], stmts[loops[0] + 1:loops[1]], stmts[loops[1]], stmts[loops[1] + 1:]
+        opaque = {ast.unparse(s_.value) for s_ in pre if isinstance(s_, ast.Assign) and isinstance(s_.value, ast.Call)
+                  and ast.unparse(s_.value.func) == "np.ndarray"}
+        ex = Exec({"natcast": True, "mathfns": True, "opaque": opaque, "scalars": {"x[0]": R("x0"), "x[1]": R("x1")}})
+        e0 = _env_of(ex.run(pre, {}), "grishagin")
+        need = ["snx[0]", "csx[0]", "sny[0]", "csy[0]", "sx1", "cx1", "sy1", "cy1"]
+        if any(k not in e0 or e0[k].ty != "R" for k in need):
+            raise Untranslatable("grishagin: the first sines/cosines are not assigned as expected")
+        if e0["sny[0]"].s != e0["snx[0]"].s.replace("x0", "x1") or e0["csy[0]"].s != e0["csx[0]"].s.replace("x0", "x1") \
+                or e0["sx1"].s != e0["snx[0]"].s or e0["cx1"].s != e0["csx[0]"].s or e0["sy1"].s != e0["sny[0]"].s or e0["cy1"].s != e0["csy[0]"].s:
+            raise Untranslatable("grishagin: the two coordinates are not treated alike")
+        i = _header(rec, "range(0, 6)", "grishagin recurrence")
+        exr = Exec({"natcast": True, "mathfns": True,
+                    "scalars": {f"snx[{i}]": R("s"), f"csx[{i}]": R("c"), f"sny[{i}]": R("S_"), f"csy[{i}]": R("C_")}})
+        er = _env_of(exr.run(rec.body, {"cx1": R("c1"), "sx1": R("s1"), "cy1": R("C1_"), "sy1": R("S1_")}), "grishagin recurrence")
+        yx = lambda t_: t_.replace("S1_", "s1").replace("C1_", "c1").replace("S_", "s").replace("C_", "c")
+        kx = [f"snx[{i} + 1]", f"csx[{i} + 1]", f"sny[{i} + 1]", f"csy[{i} + 1]"]
+        if sorted(k for k in er if k not in ("cx1", "sx1", "cy1", "sy1")) != sorted(kx):
+            raise Untranslatable("grishagin: the recurrence loop assigns " + str(list(er)))
+        if er[kx[0]].s != yx(er[kx[2]].s) or er[kx[1]].s != yx(er[kx[3]].s) or "_" in er[kx[0]].s + er[kx[1]].s:
+            raise Untranslatable("grishagin: the recurrences of the two coordinates differ")
+        em = _env_of(ex.run(mid, {}), "grishagin")
+        if sorted(em) != ["d1", "d2"]:
+            raise Untranslatable("grishagin: statements between the loops")
+        io = _header(accl, "range(0, 7)", "grishagin accumulation")
+        body = _nodoc(accl.body)
+        if len(body) != 1 or not isinstance(body[0], ast.For):
+            raise Untranslatable("grishagin: the accumulation is not a double loop")
+        jo = _header(body[0], "range(0, 7)", "grishagin accumulation (inner)")
+        exa = Exec({"natcast": True, "mathfns": True,
+                    "scalars": {f"self.af[{io}][{jo}]": R("a"), f"self.bf[{io}][{jo}]": R("b"), f"self.cf[{io}][{jo}]": R("c"),
+                                f"self.df[{io}][{jo}]": R("d"), f"snx[{io}]": R("sxi"), f"csx[{io}]": R("cxi"),
+                                f"sny[{jo}]": R("syj"), f"csy[{jo}]": R("cyj")}})
+        ea = _env_of(exa.run(body[0].body, {"d1": R("d1"), "d2": R("d2")}), "grishagin accumulation")
+        if sorted(ea) != ["d1", "d2"]:
+            raise Untranslatable("grishagin: the accumulation loop assigns " + str(list(ea)))
+        ef = _env_of(ex.run(post, {"d1": R("d1"), "d2": R("d2")}), "grishagin")
+        if "return" not in ef:
+            raise Untranslatable("grishagin: no returned value")
+        return {"grishSin1": e0["snx[0]"].s.replace("x0", "t"), "grishCos1": e0["csx[0]"].s.replace("x0", "t"),
+                "grishRecS": er[kx[0]].s, "grishRecC": er[kx[1]].s, "grishD1Init": em["d1"].s, "grishD2Init": em["d2"].s,
+                "grishAcc1": ea["d1"].s, "grishAcc2": ea["d2"].s, "grishFinal": ef["return"].s}
+    emit_all([("grishSin1", "(t : α) : α", "`GrishaginFunction.Calculate`: `snx[0]` / `sny[0]` as a function of the coordinate"),
+              ("grishCos1", "(t : α) : α", "`GrishaginFunction.Calculate`: `csx[0]` / `csy[0]`"),
+              ("grishRecS", "(s c s1 c1 : α) : α", "the recurrence `snx[i + 1]` (and `sny[i + 1]`), loop `for i in range(0, 6)`"),
+              ("grishRecC", "(s c s1 c1 : α) : α", "the recurrence `csx[i + 1]` (and `csy[i + 1]`)"),
+              ("grishD1Init", ": α", "`d1` before the double loop"), ("grishD2Init", ": α", "`d2` before the double loop"),
+              ("grishAcc1", "(d1 a b sxi syj cxi cyj : α) : α", "body of the double loop `for i in range(0, 7): for j in range(0, 7)`: the new `d1`"),
+              ("grishAcc2", "(d2 c d sxi syj cxi cyj : α) : α", "body of the double loop: the new `d2`"),
+              ("grishFinal", "(d1 d2 : α) : α", "the returned value")], grish)
+
+
+    # ---- GKLS (D-type): GKLS_norm and the pieces of CalculateDFunction ----
+    G = mods["GKLSFunction"]
+
+    def gnorm():
+        fa = func_ast(G.GKLS_norm)
+        pre, lp, post = _split_loop(fa.body, "GKLS_norm")
+        i = _header(lp, "range(self.GKLS_dim)", "GKLS_norm")
+        ex = Exec({"natcast": True, "mathfns": True, "scalars": {f"x1[{i}]": R("a"), f"x2[{i}]": R("b")}})
+        e0 = _env_of(ex.run(pre, {}), "GKLS_norm")
+        if "norm" not in e0 or e0["norm"].ty != "R":
+            raise Untranslatable("GKLS_norm: accumulator")
+        e1 = _env_of(ex.run(lp.body, {"norm": R("acc"), i: V("N", "i")}), "GKLS_norm")
+        if [k for k in e1 if k != i] != ["norm"]:
+            raise Untranslatable("GKLS_norm: the loop assigns " + str(list(e1)))
+        e2 = _env_of(ex.run(post, {"norm": R("acc")}), "GKLS_norm")
+        if "return" not in e2:
+            raise Untranslatable("GKLS_norm: no returned value")
+        return {"gklsNormInit": e0["norm"].s, "gklsNormStep": e1["norm"].s, "gklsNormFinal": e2["return"].s}
+    emit_all([("gklsNormInit", ": α", "`GKLS_norm`: the accumulator before the loop `for i in range(self.GKLS_dim)`"),
+              ("gklsNormStep", "(acc a b : α) : α", "`GKLS_norm`: the loop body, `a = x1[i]`, `b = x2[i]`"),
+              ("gklsNormFinal", "(acc : α) : α", "`GKLS_norm`: the returned value")], gnorm)
+
+    gk_lits = []
+
+    def gd():
+        import struct
+        fa = func_ast(G.CalculateDFunction)
+        st = _nodoc(fa.body)
+        k_for = [k for k, s_ in enumerate(st) if isinstance(s_, ast.For)]
+        k_wh = [k for k, s_ in enumerate(st) if isinstance(s_, ast.While)]
+        if len(k_for) != 2 or len(k_wh) != 1 or not (k_for[0] < k_wh[0] < k_for[1]):
+            raise Untranslatable("CalculateDFunction: expected domain loop, while search, scalar-product loop")
+        LM, RHO, F = "self.GKLS_minima.local_min", "self.GKLS_minima.rho", "self.GKLS_minima.f"
+        PREC, MAXV = "GKLSFunction.GKLS_PRECISION", "GKLSFunction.GKLS_MAX_VALUE"
+        # (1) the domain test
+        dl = st[k_for[0]]
+        i = _header(dl, "range(self.GKLS_dim)", "CalculateDFunction domain test")
+        body = _nodoc(dl.body)
+        if len(body) != 1 or not isinstance(body[0], ast.If) or body[0].orelse or len(body[0].body) != 1 \
+                or ast.unparse(body[0].body[0]) != f"return {MAXV}":
+            raise Untranslatable("CalculateDFunction: the domain test is not `if ...: return GKLS_MAX_VALUE`")
+        ex = Exec({"scalars": {f"x[{i}]": R("xi"), f"self.GKLS_domain_left[{i}]": R("left"), f"self.GKLS_domain_right[{i}]": R("right"),
+                               PREC: R("prec")}})
+        outside = ex.ev(body[0].test, {})
+        # (2) the search for the ball
+        if ast.unparse(st[k_wh[0] - 1]) != "index = 1":
+            raise Untranslatable("CalculateDFunction: the search does not start at index 1")
+        wh = st[k_wh[0]]
+        if [ast.unparse(s_) for s_ in _nodoc(wh.body)] != ["index = index + 1"] or not isinstance(wh.test, ast.BoolOp) \
+                or not isinstance(wh.test.op, ast.And) or len(wh.test.values) != 2 \
+                or ast.unparse(wh.test.values[0]) != "index < self.GKLS_num_minima":
+            raise Untranslatable("CalculateDFunction: shape of the while search")
+        ex2 = Exec({"scalars": {f"self.GKLS_norm({LM}[index], x)": R("nrm"), f"{RHO}[index]": R("rho")}})
+        miss = ex2.ev(wh.test.values[1], {})
+        # (3) no ball: the paraboloid
+        ifp = st[k_wh[0] + 1]
+        if not isinstance(ifp, ast.If) or ast.unparse(ifp.test) != "index == self.GKLS_num_minima" or ifp.orelse:
+            raise Untranslatable("CalculateDFunction: the paraboloid branch")
+        ex3 = Exec({"scalars": {f"self.GKLS_norm({LM}[0], x)": R("nrm"), f"{F}[0]": R("f0")}})
+        ep = _env_of(ex3.run(ifp.body, {}), "paraboloid")
+        # (4) x coincides with the minimiser
+        ifc = st[k_wh[0] + 2]
+        if not isinstance(ifc, ast.If) or ifc.orelse or len(ifc.body) != 1 or ast.unparse(ifc.body[0]) != f"return {F}[index]":
+            raise Untranslatable("CalculateDFunction: the coincidence branch")
+        ex4 = Exec({"scalars": {f"self.GKLS_norm(x, {LM}[index])": R("nrm"), PREC: R("prec")}})
+        coincide = ex4.ev(ifc.test, {})
+        # (5) the cubic
+        rest = st[k_wh[0] + 3:]
+        pre, lp, post = _split_loop(rest, "CalculateDFunction cubic part")
+        j = _header(lp, "range(self.GKLS_dim)", "CalculateDFunction scalar product")
+        ex5 = Exec({"lits": gk_lits, "lits_unknown_only": True,
+                    "scalars": {f"self.GKLS_norm({LM}[0], {LM}[index])": R("norm0"), f"self.GKLS_norm({LM}[index], x)": R("nrm"),
+                                f"{F}[0]": R("f0"), f"{F}[index]": R("fi"), f"{RHO}[index]": R("rho0"),
+                                f"x[{j}]": R("xi"), f"{LM}[index][{j}]": R("mi"), f"{LM}[0][{j}]": R("ti")}})
+        e5 = _env_of(ex5.run(pre, {}), "cubic part")
+        if e5.get("norm") is None or e5["norm"].s != "nrm" or e5.get("rho") is None or e5["rho"].s != "rho0" or "a" not in e5 or "scal" not in e5:
+            raise Untranslatable("CalculateDFunction: the statements before the scalar product")
+        e6 = _env_of(ex5.run(lp.body, {"scal": R("acc"), j: V("N", "i")}), "scalar product")
+        if [k for k in e6 if k != j] != ["scal"]:
+            raise Untranslatable("CalculateDFunction: the scalar-product loop assigns " + str(list(e6)))
+        e7 = _env_of(ex5.run(post, {"scal": R("scal"), "norm": R("nrm"), "rho": R("rho"), "a": R("a")}), "cubic")
+        if "return" not in e7:
+            raise Untranslatable("CalculateDFunction: no returned value")
+        bits = [struct.unpack("<Q", struct.pack("<d", v))[0] for v in gk_lits]
+        return {"gklsOutside": f"decide {outside.s}", "gklsBallMiss": f"decide {miss.s}", "gklsParaboloid": ep["return"].s,
+                "gklsCoincide": f"decide {coincide.s}", "gklsA": e5["a"].s, "gklsScalInit": e5["scal"].s, "gklsScalStep": e6["scal"].s,
+                "gklsCubicLits": str(bits), "gklsCubic": e7["return"].s}
+    emit_all([("gklsOutside", "(xi left right prec : α) : Bool", "`CalculateDFunction`: the domain test of one coordinate (`return GKLS_MAX_VALUE` when true)"),
+              ("gklsBallMiss", "(nrm rho : α) : Bool", "`CalculateDFunction`: second conjunct of the `while` search (the ball `index` does not contain x); "
+               "`nrm = GKLS_norm(local_min[index], x)`"),
+              ("gklsParaboloid", "(nrm f0 : α) : α", "`CalculateDFunction`: value outside every ball, `nrm = GKLS_norm(local_min[0], x)`"),
+              ("gklsCoincide", "(nrm prec : α) : Bool", "`CalculateDFunction`: x coincides with the minimiser, `nrm = GKLS_norm(x, local_min[index])`"),
+              ("gklsA", "(norm0 f0 fi : α) : α", "`CalculateDFunction`: `a`, with `norm0 = GKLS_norm(local_min[0], local_min[index])`"),
+              ("gklsScalInit", ": α", "`CalculateDFunction`: `scal` before the loop"),
+              ("gklsScalStep", "(acc xi ti mi : α) : α", "`CalculateDFunction`: scalar-product loop body, `ti = local_min[0][i]`, `mi = local_min[index][i]`"),
+              ("gklsCubicLits", ": List Nat", "bit patterns of the float literals of the cubic that are not 0, 0.5, 1, 2, 4 (here: 3.0)"),
+              ("gklsCubic", "(lit : Nat → α) (rho scal nrm a fi : α) : α", "`CalculateDFunction`: the cubic interpolation value, `nrm = GKLS_norm(local_min[index], x)`")], gd)
+
+    ok = not errors
+    out.append(f"/-- the translator could follow every function above -/\ndef translated : Bool := {'true' if ok else 'false'}\n")
+    return PROB_HEAD + "\n".join(out) + "end\nend Gen.PSrc\n", errors
+
+
+def problem_classes():
+    from iOpt.problems.rastrigin import Rastrigin
+    from iOpt.problems.xsquared import XSquared
+    from iOpt.problems.hill import Hill
+    from iOpt.problems.shekel import Shekel
+    from iOpt.problems.shekel4 import Shekel4
+    from iOpt.problems.grishagin_function.grishagin_function import GrishaginFunction
+    from iOpt.problems.GKLS_function.gkls_function import GKLSFunction
+    return {"Rastrigin": Rastrigin, "XSquared": XSquared, "Hill": Hill, "Shekel": Shekel, "Shekel4": Shekel4,
+            "GrishaginFunction": GrishaginFunction, "GKLSFunction": GKLSFunction}
+
+
 def gen_method_src():
     from common import ensure_repo_on_path
     ensure_repo_on_path()
@@ -553,5 +886,7 @@ if __name__ == "__main__":
     if "--s3" in sys.argv:
         from iOpt.problems.stronginC3 import StronginC3
         text, errors = generate_s3(StronginC3)
+    if "--prob" in sys.argv:
+        text, errors = generate_problems(problem_classes())
     print(text)
     print("-- errors:", errors, file=sys.stderr)
